@@ -1457,6 +1457,8 @@ def sock_reads(rng, total):
     left = total
     while left > 0 and len(reads) < 60:
         n = rng.choice([1, 1, 2, 3, 5, 19, 22, rng.randint(1, max(1, left))])
+        if rng.random() < 0.04:
+            n = 0                      # read(0): nothing requested, nothing consumed
         if rng.random() < 0.08:
             reads.append("L")
             left -= 1
